@@ -655,6 +655,24 @@ def inline_closure_call(body, callee):
     return body[:m.start()] + '{ ' + binds + '\n' + ''.join(out) + '\n}' + body[end:], ncalls
 
 
+def rule_C1(text):
+    """statement-level `#[cfg(feature = "std")] { B }` -> `{ B }` ; `#[cfg(not(feature = "std"))] { B }` -> dropped
+    (the units verify the configuration feature = "std", which is the crate's default and the one the pinned tests use)"""
+    n = 0
+    while True:
+        m = re.search(r'#\[cfg\((not\()?feature = "std"\)?\)\]\s*\{', text)
+        if not m:
+            break
+        ob = m.end() - 1
+        cb = match_close(text, ob, '{', '}')
+        if m.group(1):
+            text = text[:m.start()] + text[cb + 1:]
+        else:
+            text = text[:m.start()] + text[ob:]
+        n += 1
+    return text, n
+
+
 def rule_D9(text):
     """(LO..HI).map(|X| BODY).collect()   ->   { let mut verif_out = Vec::new(); let verif_hi = HI; let mut verif_k = LO;
                                                  while verif_k < verif_hi { let X = verif_k; let verif_item = BODY; verif_out.push(verif_item); verif_k += 1; } verif_out }
